@@ -303,3 +303,16 @@ Proof. intros H. unfold create_session. destruct (65535 <=? count) eqn:E; [refle
 
 Lemma create_session_steps used next : snd (scan_id id_fuel used next 0) <= 65537.
 Proof. pose proof (scan_id_steps used id_fuel next 0). rewrite id_fuel_val in H. lia. Qed.
+
+(* the capacity exactly as coded: with fewer than 65535 live sessions an id IS issued (never the
+   table-full error, never a hang); with 65535 or more the call is refused *)
+Lemma create_session_issues used count next :
+  table_wf used count -> next <= 65535 -> count < 65535 ->
+  exists id nx, create_session used count next = Ok (id, nx).
+Proof.
+  intros Hwf Hn Hc. unfold create_session. destruct (65535 <=? count) eqn:E; [lia|].
+  destruct Hwf as [t [Ht Hu]]; [lia|].
+  destruct (scan_id_finds used t Ht Hu id_fuel next 0 Hn) as [id Hid].
+  - rewrite id_fuel_val. unfold dist. destruct (next <=? t) eqn:E1; lia.
+  - rewrite Hid. cbn. eauto.
+Qed.
